@@ -1,0 +1,17 @@
+//go:build verif
+
+package ha
+
+// Add-only verification hooks for property C09 (no packet from the network can
+// crash or hang the gateway).  Compiled only with `-tags verif`; nothing here
+// changes behaviour.
+
+// VerifC09HandleSSEData calls the standby's SSE data handler.
+func (s *HASyncer) VerifC09HandleSSEData(data []byte) error { return s.handleSSEData(data) }
+
+// VerifC09ConnectToStream runs the standby's stream reader (connect, read SSE
+// lines, dispatch) in the calling goroutine until the peer closes the stream.
+func (s *HASyncer) VerifC09ConnectToStream() error { return s.connectToStream() }
+
+// VerifC09PerformFullSync runs the standby's full-sync fetch in the calling goroutine.
+func (s *HASyncer) VerifC09PerformFullSync() error { return s.performFullSync() }
